@@ -1648,6 +1648,12 @@ class OMPParallelDirective(OMPRegionDirective):
                     # appropriately.
                     symbol = access.node.scope.symbol_table.lookup(name)
 
+                    # Kernels and built-ins report their accesses to whole
+                    # arrays (e.g. the data of a field) without indices:
+                    # arrays are always shared.
+                    if getattr(symbol, "is_array", False):
+                        break
+
                     # If it has been read before we have to check if ...
                     if has_been_read:
                         loop_pos = loop_ancestor.loop_body.abs_position
